@@ -5,6 +5,7 @@ package crsgen
 
 import (
 	"math"
+	"regexp"
 	"strconv"
 	"strings"
 
@@ -27,7 +28,7 @@ var Ellipsoids = []string{"MERIT", "SGS85", "GRS80", "IAU76", "airy", "APL4", "N
 // inside which the dropped ellipsoidal height of a 2-D WGS84 round trip is
 // negligible.
 type DatumArea struct {
-	Name                   string
+	Name                     string
 	West, South, East, North float64
 }
 
@@ -78,6 +79,7 @@ type Def struct {
 	A, Rf                      float64 // numeric ellipsoid when known (EllKind ab/arf)
 	BothDatum                  bool    // named datum and explicit towgs84 together
 	Spelling                   uint64  // non-zero: permuted clause order / irregular blanks
+	OmittedDefaults            bool    // some of x_0 / y_0 / lat_0 / lon_0 are zero and not written (or written as 0)
 }
 
 // String renders the PROJ.4 definition. When Spelling is non-zero the clauses are
@@ -193,14 +195,15 @@ func (d *Def) PosIn(r *R, a DatumArea) (lon, lat float64, ok bool) {
 
 // Options steer Gen.
 type Options struct {
-	Projs     []string // allowed projections (nil = all)
-	DatKinds  []string // allowed datum kinds (nil = all four)
-	NoPM      bool
-	NoUnits   bool
-	PlainEll  bool // only named ellipsoids / a+rf (WKT-expressible)
-	Area      *DatumArea
-	SmallTowgs bool // random towgs84 limited to |t|<=100 m, |r|<=1", |s|<=2 ppm
+	Projs       []string // allowed projections (nil = all)
+	DatKinds    []string // allowed datum kinds (nil = all four)
+	NoPM        bool
+	NoUnits     bool
+	PlainEll    bool // only named ellipsoids / a+rf (WKT-expressible)
+	Area        *DatumArea
+	SmallTowgs  bool // random towgs84 limited to |t|<=100 m, |r|<=1", |s|<=2 ppm
 	NoBothDatum bool // never combine a named datum with an explicit towgs84
+	NoOmit      bool // never leave out default-valued clauses
 }
 
 // AllProjs lists the supported projections.
@@ -464,6 +467,28 @@ func Gen(r *R, o *Options) *Def {
 			d.Ell, d.EllKind = "", "default"
 		} else {
 			d.Ell, d.EllKind = " +ellps=bessel", "name"
+		}
+	}
+	if !o.NoOmit && (d.Proj == "lcc" || d.Proj == "aea" || d.Proj == "eqdc" || d.Proj == "tmerc" || d.Proj == "merc") && o.Area == nil && r.Chance(0.12) {
+		// parameters at their PROJ.4 default (zero) that are simply not written: false origin,
+		// latitude of origin, central meridian
+		for _, key := range []string{"x_0", "y_0", "lat_0", "lon_0"} {
+			if r.Chance(0.4) {
+				continue
+			}
+			re := regexp.MustCompile(` \+` + key + `=[^ ]+`)
+			if !re.MatchString(d.Params) {
+				continue
+			}
+			repl := ""
+			if r.Chance(0.3) {
+				repl = " +" + key + "=0"
+			}
+			d.Params = re.ReplaceAllString(d.Params, repl)
+			if key == "lon_0" {
+				d.Lon0 = 0
+			}
+			d.OmittedDefaults = true
 		}
 	}
 	return d
